@@ -172,7 +172,8 @@ pub fn plan(prop: &str, tier: &str, polars: bool, scale: f64) -> Plan {
     }
 }
 
-fn run_one(agg: &mut Agg, prop: &str, src: &Source, seed: u64, idx: u64) {
+fn run_one(agg: &mut Agg, prop: &str, src_idx: usize, src: &Source, seed: u64, idx: u64) {
+    crate::crash::note_run(src_idx as u32, idx);
     let program = src.program(seed, idx);
     let (viol, st) = check_program(&program);
     agg.runs += 1;
@@ -223,7 +224,7 @@ fn run_one(agg: &mut Agg, prop: &str, src: &Source, seed: u64, idx: u64) {
 
 pub fn run_plan(plan: &Plan, seed: u64, workers: usize) -> Agg {
     let mut total = Agg::default();
-    for src in &plan.sources {
+    for (src_idx, src) in plan.sources.iter().enumerate() {
         let n = src.len();
         let mut parts: Vec<Agg> = Vec::new();
         std::thread::scope(|sc| {
@@ -235,7 +236,7 @@ pub fn run_plan(plan: &Plan, seed: u64, workers: usize) -> Agg {
                     let mut agg = Agg::default();
                     let mut idx = w as u64;
                     while idx < n {
-                        run_one(&mut agg, prop, src, seed, idx);
+                        run_one(&mut agg, prop, src_idx, src, seed, idx);
                         idx += workers as u64;
                     }
                     agg
